@@ -355,6 +355,20 @@ func ruleSEM(c *Ctx) {
 				}
 				return true
 			})
+			// `case token.Add, token.Sub, …: emit(OpBinaryOp, int(node.Token))`:
+			// inside the clause the switch tag *is* the listed token
+			ast.Inspect(binArm, func(m ast.Node) bool {
+				sw, ok := m.(*ast.SwitchStmt)
+				if !ok || sw.Tag == nil {
+					return true
+				}
+				for _, cl := range sw.Body.List {
+					if cl == ast.Stmt(cc) {
+						em = strings.ReplaceAll(em, w.Src(sw.Tag), "token."+co.Name())
+					}
+				}
+				return true
+			})
 			handled[co.Name()] = em
 		}
 		return true
